@@ -29,6 +29,17 @@ ALLOWED_AXIOMS = {
     "FloatAxioms.eqb_spec",
     "FloatAxioms.ltb_spec",
     "FloatAxioms.leb_spec",
+    # the standard library's specification of the primitive binary64 ARITHMETIC and of the float <-> spec_float
+    # conversion, all declared in Coq's theories/Floats/FloatAxioms.v; Flocq's bridge Flocq.IEEE754.PrimFloat
+    # (add_equiv / sub_equiv / opp_equiv / is_finite_equiv, Prim2B / B2Prim) rests on exactly these.  Used only by the
+    # binary64 rounding-error theorems of Proofs/RoundSum.v (C11 (R1)-(R4), C06 (13)-(17)).  Flocq itself declares no axiom.
+    "FloatAxioms.Prim2SF_valid",
+    "FloatAxioms.SF2Prim_Prim2SF",
+    "FloatAxioms.Prim2SF_SF2Prim",
+    "FloatAxioms.add_spec",
+    "FloatAxioms.sub_spec",
+    "FloatAxioms.opp_spec",
+    "FloatAxioms.abs_spec",
 }
 # primitive types / operations that `Print Assumptions` lists next to axioms ("native int/float primitives are not yours")
 PRIMITIVE_PREFIXES = ("PrimFloat.", "PrimInt63.", "PrimArray.", "Uint63.", "Sint63.")
